@@ -66,8 +66,16 @@ def relaxations(rng, base):
     t["min_usage"] = rng.choice([1, 0.5])
     l = copy.deepcopy(t); l["min_usage"] = 0
     out.append(("lower-min-usage", (t, {}), (l, {})))
-    # 7 imperfect factorisation
+    # 7 imperfect factorisation: rank sizes with few divisors and a tight buffer, where imperfect tiles matter
     t = copy.deepcopy(p)
+    if t["workload"]["kind"] == "matmuls":
+        t["workload"].update(M=rng.choice([5, 7, 9, 10]), KN=rng.choice([5, 6, 7]))
+        fp = 2 * t["workload"]["M"] * t["workload"]["KN"] + t["workload"]["KN"] ** 2
+    else:
+        t["workload"].update(A=rng.choice([5, 7, 9]), B=rng.choice([5, 6, 7]), C=rng.choice([3, 5]))
+        w = t["workload"]; fp = w["A"] * w["C"] + w["C"] * w["B"] + w["A"] * w["B"]
+    t["glb_size"] = max(3, fp // rng.choice([2, 3, 4])) * t["bits"]
+    t["mm_energy"] = rng.choice([50, 100, 200])
     out.append(("imperfect", (t, {}), (copy.deepcopy(t), {"explore_imperfect_temporal_loops": True})))
     return out
 
@@ -78,8 +86,13 @@ def work(job):
     for side, (params, knobs) in (("tight", tight), ("loose", loose)):
         res[side] = {}
         for m in METRICS:
-            r = ML.run_mapper(params, [m], knobs=knobs, eval_in_detail=False)
+            # the property speaks of the model-evaluated optimum: for the imperfect relaxation the explorer's compiled formulas
+            # and the model can differ (ceilings), so the returned mappings are re-evaluated in detail there
+            r = ML.run_mapper(params, [m], knobs=knobs, eval_in_detail=(name == "imperfect"))
             res[side][m] = {"error": r["error"], "best": ML.best(r["rows"], m), "n": len(r["rows"])}
+            if name == "imperfect" and side == "loose":
+                rj = ML.run_mapper(params, [m], knobs=knobs, eval_in_detail=False)
+                res[side][m]["explorer_best"] = ML.best(rj["rows"], m)  # what the tile-shape explorer / joiner believed
     return res
 
 
@@ -103,6 +116,10 @@ def run(ctx: Ctx):
         kinds = {j[0] for j in jobs}
         base = ML.gen_params(ctx.rng)
         jobs += [r for r in relaxations(ctx.rng, base) if r[0] not in kinds][:4]
+        # the imperfect relaxation is always exercised twice (one matmul, one 3-rank Einsum)
+        for kind in ("matmuls", "einsum3"):
+            base = ML.gen_params(ctx.rng, kind=kind, n_einsums=1, levels=2)
+            jobs += [r for r in relaxations(ctx.rng, base) if r[0] == "imperfect"]
     results = ML.pool_map(work, jobs, workers=8)
     drv = ctx.driver()
     for (name, tight, loose), res in zip(jobs, results):
@@ -125,7 +142,13 @@ def run(ctx: Ctx):
             if v is not True and v is not False:
                 raise RuntimeError(f"driver: {v}")
             if not v:
-                ctx.fail(f"relaxed-worse:{name}", "the optimum got worse after relaxing the mapspace", rep)
+                key = f"relaxed-worse:{name}"
+                eb = l.get("explorer_best")
+                if name == "imperfect" and eb is not None and eb <= t["best"] * (1 + REL):
+                    # mechanism: the explorer's estimate of the returned imperfect mapping (average tile shapes) is no worse than
+                    # the perfect optimum, but the model's evaluation of that mapping is
+                    key = "relaxed-worse:imperfect:explorer-estimate-below-model-cost"
+                ctx.fail(key, "the optimum got worse after relaxing the mapspace", rep)
             if l["best"] < t["best"] * (1 - 1e-6):
                 strictly = True
         ctx.case({"relaxation": name, "tight": tight, "loose": loose, "res": res}, nontrivial=both and strictly,
